@@ -12,9 +12,19 @@ Definition claim_of (p : pair) : string * reply_on := (rm_name (fst p), rm_on (f
 Definition rid_of (p : pair) : string := reply_id_of (snd p).
 Definition claimants (ps : list pair) (rid : string) : list pair := filter (fun p => rid_of p =? rid) ps.
 
-(* no two methods claiming one handler name exclude each other *)
+(* two claims of one reply id constant are in conflict when they are written with different handler
+   names (`handler1` / `handler_1`) or when their outcomes overlap *)
+Definition conflict (q p : pair) : bool := negb (snd q =? snd p) || excludes (rm_on (fst q)) (rm_on (fst p)).
+
+Lemma conflict_false q p : conflict q p = false -> snd q = snd p /\ excludes (rm_on (fst q)) (rm_on (fst p)) = false.
+Proof.
+  unfold conflict. intros H. apply orb_false_iff in H. destruct H as [H1 H2]. split; [|exact H2].
+  apply negb_false_iff in H1. apply String.eqb_eq in H1. exact H1.
+Qed.
+
+(* no two methods claiming one reply id conflict *)
 Definition compatible (ps : list pair) : Prop :=
-  forall a p b, ps = a ++ p :: b -> forall q, In q a -> rid_of q = rid_of p -> excludes (rm_on (fst q)) (rm_on (fst p)) = false.
+  forall a p b, ps = a ++ p :: b -> forall q, In q a -> rid_of q = rid_of p -> conflict q p = false.
 
 Definition first_data (l : list pair) : option rfield :=
   fold_left (fun acc p => match acc with Some d => Some d | None => fst (as_data_field (fst p)) end) l None.
@@ -26,7 +36,8 @@ Record Inv (ps : list pair) (t : list reply_data) : Prop := {
   inv_nodup : NoDup (map rd_reply_id t);
   inv_cover : forall p, In p ps -> exists rd, In rd t /\ rd_reply_id rd = rid_of p;
   inv_data : forall rd, In rd t -> rd_data rd = first_data (claimants ps (rd_reply_id rd));
-  inv_payload : forall rd, In rd t -> exists p, hd_error (claimants ps (rd_reply_id rd)) = Some p /\ rd_payload rd = payload_of (fst p)
+  inv_payload : forall rd, In rd t -> exists p, hd_error (claimants ps (rd_reply_id rd)) = Some p /\ rd_payload rd = payload_of (fst p);
+  inv_hid : forall rd, In rd t -> forall q, In q (claimants ps (rd_reply_id rd)) -> snd q = rd_handler_id rd
 }.
 
 Lemma find_rd_some t rid rd : find_rd t rid = Some rd -> In rd t /\ rd_reply_id rd = rid.
@@ -111,6 +122,12 @@ Proof.
   destruct (rd_new m (rd_handler_id rd)) as [n dn]. simpl in *. rewrite D. auto.
 Qed.
 
+Lemma rd_new_hid m hid : rd_handler_id (fst (rd_new m hid)) = hid.
+Proof. unfold rd_new. destruct (as_data_field m). reflexivity. Qed.
+
+Lemma rd_merge_hid rd m : rd_handler_id (fst (rd_merge rd m)) = rd_handler_id rd.
+Proof. unfold rd_merge. destruct (rd_new m (rd_handler_id rd)). reflexivity. Qed.
+
 Lemma existsb_excludes_false (l : list pair) on :
   (forall q, In q l -> excludes (rm_on (fst q)) on = false) ->
   existsb (fun h : string * reply_on => excludes (snd h) on) (map claim_of l) = false.
@@ -119,18 +136,31 @@ Proof.
   intros x I. apply H. right. exact I.
 Qed.
 
+(* the entry of a reply id carries the handler name of every claim that does not conflict with its claimants *)
+Lemma hid_of_entry ps t x p :
+  Inv ps t -> In x t -> rd_reply_id x = rid_of p ->
+  (forall q, In q ps -> rid_of q = rid_of p -> conflict q p = false) -> rd_handler_id x = snd p.
+Proof.
+  intros I Ix E NE. destruct (inv_payload _ _ I x Ix) as (p0 & H0 & _).
+  assert (I0 : In p0 (claimants ps (rd_reply_id x))) by (destruct (claimants ps (rd_reply_id x)); [discriminate H0 | injection H0 as ->; left; reflexivity]).
+  rewrite <- (inv_hid _ _ I x Ix p0 I0). apply filter_In in I0. destruct I0 as [I0 E0]. apply String.eqb_eq in E0.
+  apply (conflict_false p0 p). apply NE; [exact I0 | congruence].
+Qed.
+
 (* ---- one step of the fold ---- *)
 Lemma table_step_inv ps t ds p :
-  Inv ps t -> (forall q, In q ps -> rid_of q = rid_of p -> excludes (rm_on (fst q)) (rm_on (fst p)) = false) ->
+  Inv ps t -> (forall q, In q ps -> rid_of q = rid_of p -> conflict q p = false) ->
   Inv (ps ++ [p]) (fst (table_step (t, ds) p)).
 Proof.
-  intros I NE. destruct p as [m hid]. unfold table_step. set (rid := reply_id_of hid).
+  intros I NE. pose proof (fun x Ix E => hid_of_entry ps t x p I Ix E NE) as HID.
+  destruct p as [m hid]. unfold table_step. set (rid := reply_id_of hid).
   change (reply_id_of hid) with (rid_of (m, hid)) in rid.
   destruct (find_rd t rid) as [ex|] eqn:F.
   - destruct (find_rd_some _ _ _ F) as [Iex Eex].
+    rewrite (HID ex Iex Eex). cbn [snd]. rewrite String.eqb_refl. cbn [negb].
     rewrite (inv_handlers _ _ I ex Iex), Eex.
     rewrite existsb_excludes_false.
-    2:{ intros q Iq. apply filter_In in Iq. destruct Iq as [Iq Eq]. apply String.eqb_eq in Eq. apply NE; auto. }
+    2:{ intros q Iq. apply filter_In in Iq. destruct Iq as [Iq Eq]. apply String.eqb_eq in Eq. apply (conflict_false q (m, hid)). apply NE; auto. }
     destruct (rd_merge ex m) as [mg dm] eqn:MG. simpl.
     assert (Hf : forall x, rd_reply_id (fst (rd_merge x m)) = rd_reply_id x) by (intros x; apply rd_merge_fields).
     constructor.
@@ -154,6 +184,12 @@ Proof.
       * destruct (rd_merge_fields x m) as (R & _ & _ & P). rewrite P, R, B. unfold rid. rewrite claimants_snoc_same.
         destruct (inv_payload _ _ I x A) as (p0 & H0 & P0). rewrite B in H0.
         exists p0. split; [|exact P0]. fold rid. destruct (claimants ps rid); [discriminate H0 | exact H0].
+    + intros rd' I'. destruct (replace_rd_in _ _ _ _ (inv_nodup _ _ I) I') as [[A B]|(x & A & B & ->)].
+      * rewrite claimants_snoc_other by (intros E; apply B; symmetry; exact E). apply (inv_hid _ _ I); exact A.
+      * rewrite rd_merge_hid. destruct (rd_merge_fields x m) as (R & _). rewrite R, B. unfold rid. rewrite claimants_snoc_same.
+        intros q Iq. apply in_app_or in Iq. destruct Iq as [Iq|[<-|[]]].
+        -- apply (inv_hid _ _ I x A). rewrite B. exact Iq.
+        -- symmetry. apply (HID x A B).
   - pose proof (find_rd_none _ _ F) as Nn.
     assert (CN : claimants ps rid = []).
     { apply claimants_nil_iff. intros q Iq E. destruct (inv_cover _ _ I q Iq) as (rd & A & B). apply (Nn rd A). congruence. }
@@ -175,6 +211,10 @@ Proof.
       * rewrite claimants_snoc_other by (intros E; apply (Nn rd' A); symmetry; exact E). apply (inv_payload _ _ I); exact A.
       * rewrite R. change (reply_id_of hid) with (rid_of (m, hid)). rewrite claimants_snoc_same. fold rid. rewrite CN.
         exists (m, hid). split; [reflexivity | exact P].
+    + intros rd' I'. apply in_app_or in I'. destruct I' as [A|[<-|[]]].
+      * rewrite claimants_snoc_other by (intros E; apply (Nn rd' A); symmetry; exact E). apply (inv_hid _ _ I); exact A.
+      * rewrite R. change (reply_id_of hid) with (rid_of (m, hid)). rewrite claimants_snoc_same. fold rid. rewrite CN.
+        intros q [<-|[]]. pose proof (rd_new_hid m hid) as Hh. rewrite RN in Hh. symmetry. exact Hh.
 Qed.
 
 Lemma inv_nil : Inv [] [].
@@ -230,7 +270,7 @@ Proof.
   apply filter_In in Iq. destruct Iq as [Iq Eq]. apply String.eqb_eq in Eq.
   assert (Ip : In p (filter (fun p0 : pair => rid_of p0 =? rid) ps)) by (rewrite E; apply in_or_app; right; left; reflexivity).
   apply filter_In in Ip. destruct Ip as [_ Ep]. apply String.eqb_eq in Ep.
-  apply (C a' p b' Eps q Iq). congruence.
+  apply (conflict_false q p). apply (C a' p b' Eps q Iq). congruence.
 Qed.
 
 (* at most one claimant of a name covers a given outcome *)
@@ -405,7 +445,7 @@ End Dispatch.
 
 (* ---- a decision procedure for `compatible` ---- *)
 Definition compat_with (seen : list pair) (p : pair) : bool :=
-  forallb (fun q => negb (rid_of q =? rid_of p) || negb (excludes (rm_on (fst q)) (rm_on (fst p)))) seen.
+  forallb (fun q => negb (rid_of q =? rid_of p) || negb (conflict q p)) seen.
 
 Fixpoint compatibleb_aux (seen ps : list pair) : bool :=
   match ps with
@@ -415,13 +455,13 @@ Fixpoint compatibleb_aux (seen ps : list pair) : bool :=
 Definition compatibleb (ps : list pair) : bool := compatibleb_aux [] ps.
 
 Lemma compatibleb_aux_sound : forall ps seen, compatibleb_aux seen ps = true ->
-  forall a p b, ps = a ++ p :: b -> forall q, In q (seen ++ a) -> rid_of q = rid_of p -> excludes (rm_on (fst q)) (rm_on (fst p)) = false.
+  forall a p b, ps = a ++ p :: b -> forall q, In q (seen ++ a) -> rid_of q = rid_of p -> conflict q p = false.
 Proof.
   induction ps as [|x r IH]; intros seen H a p b E q Iq Eq; [destruct a; discriminate|].
   simpl in H. apply andb_true_iff in H. destruct H as [Hx Hr].
   destruct a as [|y a]; simpl in E; injection E as -> E.
   - rewrite app_nil_r in Iq. unfold compat_with in Hx. rewrite forallb_forall in Hx. specialize (Hx q Iq).
-    rewrite Eq, String.eqb_refl in Hx. simpl in Hx. destruct (excludes _ _); [discriminate | reflexivity].
+    rewrite Eq, String.eqb_refl in Hx. cbn [negb orb] in Hx. destruct (conflict q p); [discriminate | reflexivity].
   - apply (IH (seen ++ [y]) Hr a p b E q); [|exact Eq]. rewrite <- app_assoc. exact Iq.
 Qed.
 
@@ -437,7 +477,7 @@ Definition same_sig (a b : list rfield) : bool :=
 (* the claim at this position breaks no rule, given the claims before it *)
 Definition claim_ok (before : list pair) (p : pair) : Prop :=
   snd (rd_new (fst p) (snd p)) = [] /\
-  (forall q, In q before -> rid_of q = rid_of p -> excludes (rm_on (fst q)) (rm_on (fst p)) = false) /\
+  (forall q, In q before -> rid_of q = rid_of p -> conflict q p = false) /\
   (forall q, hd_error (claimants before (rid_of p)) = Some q -> same_sig (payload_of (fst q)) (payload_of (fst p)) = true).
 
 Definition valid_claims (ps : list pair) : Prop := forall a p b, ps = a ++ p :: b -> claim_ok a p.
@@ -451,7 +491,8 @@ Proof. unfold payload_of, rd_new. destruct (as_data_field m). reflexivity. Qed.
 Lemma step_diags_grow t ds p : exists extra, snd (table_step (t, ds) p) = ds ++ extra.
 Proof.
   destruct p as [m hid]. unfold table_step. destruct (find_rd t (reply_id_of hid)) as [ex|].
-  - destruct (existsb _ (rd_handlers ex)); [eexists; reflexivity|]. destruct (rd_merge ex m). eexists; reflexivity.
+  - destruct (negb _); [eexists; reflexivity|].
+    destruct (existsb _ (rd_handlers ex)); [eexists; reflexivity|]. destruct (rd_merge ex m). eexists; reflexivity.
   - destruct (rd_new m hid). eexists; reflexivity.
 Qed.
 
@@ -475,13 +516,22 @@ Proof.
   - destruct (find_rd_some _ _ _ F) as [Iex Eex].
     pose proof (inv_handlers _ _ I ex Iex) as H. rewrite Eex in H.
     destruct (inv_payload _ _ I ex Iex) as (q0 & HQ & PQ). rewrite Eex in HQ.
+    assert (Iq0 : In q0 (claimants ps rid)) by (destruct (claimants ps rid); [discriminate HQ | injection HQ as ->; left; reflexivity]).
+    pose proof (inv_hid _ _ I ex Iex) as HH. rewrite Eex in HH.
+    destruct (rd_handler_id ex =? hid) eqn:HE; cbn [negb].
+    2:{ split.
+        - intros D. cbn [snd] in D. apply app_eq_self_nil in D. discriminate D.
+        - intros (_ & NE & _). exfalso. pose proof Iq0 as Iq0'. apply filter_In in Iq0'. destruct Iq0' as [Iq0' Eq0]. apply String.eqb_eq in Eq0.
+          destruct (conflict_false _ _ (NE q0 Iq0' Eq0)) as [Hs _]. cbn [snd] in Hs. rewrite (HH q0 Iq0) in Hs.
+          rewrite Hs, String.eqb_refl in HE. discriminate. }
+    apply String.eqb_eq in HE.
     destruct (existsb (fun h : string * reply_on => excludes (snd h) (rm_on m)) (rd_handlers ex)) eqn:EX.
     + split.
       * intros D. cbn [snd] in D. apply app_eq_self_nil in D. rewrite H in D.
         destruct (claimants ps rid); [discriminate HQ | discriminate D].
       * intros (_ & NE & _). exfalso. rewrite H in EX. apply existsb_exists in EX. destruct EX as (h & Ih & Eh).
         apply in_map_iff in Ih. destruct Ih as (q & <- & Iq). apply filter_In in Iq. destruct Iq as [Iq Eq]. apply String.eqb_eq in Eq.
-        simpl in Eh. rewrite (NE q Iq Eq) in Eh. discriminate.
+        simpl in Eh. destruct (conflict_false _ _ (NE q Iq Eq)) as [_ Hx]. cbn [fst] in Hx. rewrite Hx in Eh. discriminate.
     + unfold rd_merge. destruct (rd_new m (rd_handler_id ex)) as [n dn] eqn:RN. cbn [snd].
       assert (Edn : dn = snd (rd_new m hid)) by (rewrite (rd_new_diags_indep m hid (rd_handler_id ex)), RN; reflexivity).
       assert (Epn : rd_payload n = payload_of m) by (rewrite <- (rd_new_payload_indep m (rd_handler_id ex)), RN; reflexivity).
@@ -490,6 +540,8 @@ Proof.
         apply app_eq_nil in D3. destruct D3 as [D3 D4].
         split; [rewrite <- Edn; exact D1|]. split.
         -- intros q Iq Eq. rewrite H in EX.
+           assert (Iqc : In q (claimants ps rid)) by (apply filter_In; split; [exact Iq | rewrite Eq; apply String.eqb_refl]).
+           unfold conflict. cbn [fst snd]. rewrite (HH q Iqc), HE, String.eqb_refl. cbn [negb orb].
            destruct (excludes (rm_on (fst q)) (rm_on m)) eqn:E; [|reflexivity]. exfalso.
            assert (existsb (fun h : string * reply_on => excludes (snd h) (rm_on m)) (map claim_of (claimants ps rid)) = true).
            { apply existsb_exists. exists (claim_of q). split; [apply in_map; apply filter_In; split; [exact Iq | rewrite Eq; apply String.eqb_refl] | exact E]. }
@@ -558,3 +610,50 @@ Qed.
 (* accepted tables satisfy the hypothesis of the routing theorems *)
 Corollary accepted_table_is_compatible ms : snd (build_table ms) = [] -> compatible (all_pairs ms).
 Proof. intros H. apply valid_compatible. apply (proj1 (table_accepted_iff ms) H). Qed.
+
+(* ------------------------------------------------------------------------------------------ *)
+(* C08: in an accepted table, handler names that differ as written get different ids - also the
+   names whose reply id constants would coincide (`handler1` / `handler_1`): those are rejected. *)
+Lemma in_two_split {A} (l : list A) x y : In x l -> In y l ->
+  x = y \/ (exists a b, l = a ++ y :: b /\ In x a) \/ (exists a b, l = a ++ x :: b /\ In y a).
+Proof.
+  induction l as [|z r IH]; intros Ix Iy; [destruct Ix|].
+  destruct Ix as [->|Ix], Iy as [->|Iy].
+  - left; reflexivity.
+  - right; left. apply in_split in Iy. destruct Iy as (l1 & l2 & ->). exists (x :: l1), l2. split; [reflexivity | left; reflexivity].
+  - right; right. apply in_split in Ix. destruct Ix as (l1 & l2 & ->). exists (y :: l1), l2. split; [reflexivity | left; reflexivity].
+  - destruct (IH Ix Iy) as [E|[(a & b & -> & I)|(a & b & -> & I)]].
+    + left; exact E.
+    + right; left. exists (z :: a), b. split; [reflexivity | right; exact I].
+    + right; right. exists (z :: a), b. split; [reflexivity | right; exact I].
+Qed.
+
+Theorem compatible_names_have_their_own_constant ps : compatible ps ->
+  forall p1 p2, In p1 ps -> In p2 ps -> snd p1 <> snd p2 -> rid_of p1 <> rid_of p2.
+Proof.
+  intros C p1 p2 I1 I2 N E.
+  destruct (in_two_split ps p1 p2 I1 I2) as [->|[(a & b & Eps & I)|(a & b & Eps & I)]].
+  - apply N; reflexivity.
+  - destruct (conflict_false _ _ (C a p2 b Eps p1 I E)) as [H _]. exact (N H).
+  - destruct (conflict_false _ _ (C a p1 b Eps p2 I (eq_sym E))) as [H _]. exact (N (eq_sym H)).
+Qed.
+
+Lemma id_of_aux_complete t : forall hid base rd, In rd t -> rd_reply_id rd = reply_id_of hid -> exists i, id_of_aux t hid base = Some i.
+Proof.
+  induction t as [|x r IH]; intros hid base rd I E; [destruct I|]. simpl.
+  destruct (String.eqb_spec (rd_reply_id x) (reply_id_of hid)) as [_|Nx]; [eexists; reflexivity|].
+  destruct I as [->|I]; [contradiction|]. apply (IH hid (N.succ base) rd I E).
+Qed.
+
+Theorem accepted_distinct_names_distinct_ids ms : snd (build_table ms) = [] ->
+  forall m1 h1 m2 h2, In (m1, h1) (all_pairs ms) -> In (m2, h2) (all_pairs ms) -> h1 <> h2 ->
+  exists i1 i2, id_of (fst (build_table ms)) h1 = Some i1 /\ id_of (fst (build_table ms)) h2 = Some i2 /\ i1 <> i2.
+Proof.
+  intros Acc m1 h1 m2 h2 I1 I2 N.
+  pose proof (accepted_table_is_compatible ms Acc) as C.
+  pose proof (compatible_names_have_their_own_constant _ C (m1, h1) (m2, h2) I1 I2 N) as NR. unfold rid_of in NR. cbn [snd] in NR.
+  destruct (inv_cover _ _ (build_table_inv ms C) (m1, h1) I1) as (r1 & A1 & B1).
+  destruct (inv_cover _ _ (build_table_inv ms C) (m2, h2) I2) as (r2 & A2 & B2).
+  destruct (id_of_aux_complete _ h1 0%N r1 A1 B1) as (i1 & E1). destruct (id_of_aux_complete _ h2 0%N r2 A2 B2) as (i2 & E2).
+  exists i1, i2. split; [exact E1|]. split; [exact E2|]. apply (distinct_handlers_distinct_ids _ h1 h2 i1 i2 NR E1 E2).
+Qed.
